@@ -70,7 +70,7 @@ fn justice_scenario(seed: u64, thorough: bool) -> Result<Outcome, String> {
 	let anchors = rng.chance(1, 3);
 	let cfg = if anchors { test_default_channel_config() } else { test_legacy_channel_config() };
 	let reload = rng.below(4);   // 1: monitor + manager serialised and reloaded before the confirmation, 2: after it
-	let mut net = Net::new(2, vec![Some(cfg.clone()), Some(cfg)]);
+	let mut net = std::mem::ManuallyDrop::new(Net::new(2, vec![Some(cfg.clone()), Some(cfg)]));   // never dropped: skips Node::drop's end-of-test assertions (half-finished scenario by design)
 	let c = net.open(0, 1, 1_000_000, 400_000_000);
 	let chan_id = net.chans[c].2;
 	let victim = 0usize; let cheater = 1usize;
@@ -246,7 +246,6 @@ fn justice_scenario(seed: u64, thorough: bool) -> Result<Outcome, String> {
 	let _ = n_updates;
 	let _ = net.nodes[victim].node.get_and_clear_pending_events();
 	let _ = net.nodes[victim].node.get_and_clear_pending_msg_events();
-	std::mem::forget(net);   // skip Node::drop's end-of-test assertions (half-finished scenario by design)
 	Ok(out)
 }
 
@@ -268,7 +267,7 @@ fn main() {
 						for f in o.oracle { rec.oracle_fail(format!("scenario {} (seed {}): {}", k, s, f)); }
 					},
 					Ok(Err(e)) => { rec.discarded += 1; *rec.classes.entry(format!("discarded:{}", e.chars().take(40).collect::<String>())).or_insert(0) += 1; },
-					Err(p) => rec.oracle_fail(format!("scenario {} (seed {}) panicked: {}", k, s, p.chars().take(300).collect::<String>())),
+					Err(p) => rec.oracle_fail(format!("scenario {} (seed {}) panicked: {}", k, s, p.replace('\n', " ").chars().take(300).collect::<String>())),
 				}
 			}
 			rec.notes.insert("rule".into(), "one scenario = one real 2-node channel with a PRNG-drawn payment history (dust / near-dust / non-dust, both directions, claims and failures), the cheater's commitment captured at a random old state, a random subset of its HTLC transactions; distinct = distinct `confirm` op lines (commitment number + output layout + second-stage subset)".into());
